@@ -1,4 +1,5 @@
 """C07 — jar remapping: type-directed traversal completeness of the Mappable impls (A3) and entry-name handling."""
+from lib import c18_sym as S
 from lib import hir as H
 from lib import prov as PV
 
@@ -144,14 +145,32 @@ def run(F, R, tier):
             lits = [n for n in H.walk(body) if n.get("k") == "struct" and n.get("adt") == adt_path]
             fields = adt["variants"][0]["fields"]
             if not lits:
-                # whole-value identity (`Ok(self)`)
+                # no struct literal: the value is `self`, possibly after `self.f = <expr>;` updates (mutate-in-place spelling)
                 whole = _returns_self(body, self_id)
+                assigns = {}
+                for n in H.walk(body):
+                    if n.get("k") == "assign":
+                        root, path = H.place_root(n["l"])
+                        path = [x for x in path if not x.startswith(".")]
+                        if root and root[0] == self_id and len(path) == 1:
+                            assigns.setdefault(path[0], []).append(n)
                 for f in fields:
                     n_cases += 1
                     c = carry.field(adt_path, None, f)
                     key = "%s.%s" % (short, f["name"])
-                    if c:
-                        R.inst("R07.1", key + "=identity", False if whole else False, sp=b["sp"],
+                    asg = assigns.get(f["name"]) or []
+                    if asg and whole:
+                        clss = []
+                        for a in asg:
+                            pa = _prov(a["r"], ctx, body)
+                            clss.append((classify(pa, self_id, f["name"]), pa))
+                        cls, pa = clss[-1]
+                        ok = (cls == "remapped") if c else all(x in ("identity", "remapped") for x, _ in clss)
+                        R.inst("R07.1", key + ("" if ok else "=" + cls.split(":")[0]), ok, sp=asg[-1]["sp"], got=pa.show(), nontrivial=bool(c),
+                               expect=("remap machinery applied to self.%s" if c else "self.%s unchanged") % f["name"],
+                               detail=None if ok else "position (%s) is %s" % (f["ty"].replace(DUKE, ""), cls))
+                    elif c:
+                        R.inst("R07.1", key + "=identity", False, sp=b["sp"],
                                detail="reference-carrying field is returned unchanged (whole value returned as is)" if whole else "no struct literal and not `Ok(self)`")
                     else:
                         R.inst("R07.1", key, whole, sp=b["sp"], nontrivial=False)
@@ -356,10 +375,8 @@ def _prov(e, ctx, body):
     (`let mut out = Vec::new(); for x in self.f { out.push(x.remap(r)?) }` ≡ `self.f.into_iter().map(..).collect()`) gets the
     provenance of what is put into it."""
     p = PV.prov(e, ctx)
-    if p.src:
-        return p
-    l = H.recv_root(e)
-    if not l or l[0] in ctx.roots:
+    l = H.local_of(H.peel(e, tries=True))
+    if not l or l[0] in ctx.roots or l[0] in ctx.env:
         return p
     init = H.let_init_of(body, l[0])
     if init is None:
@@ -367,7 +384,10 @@ def _prov(e, ctx, body):
     fills = [n for n in H.walk(body) if n.get("k") == "mcall" and n["name"] in FILL_CALLS and H.local_of(n["recv"]) and H.local_of(n["recv"])[0] == l[0]]
     if not fills:
         return p
-    out = PV.P(calls=p.calls, ctors=p.ctors)
+    # the initial (empty / pre-sized) collection contributes no content: `Vec::with_capacity(self.f.len())` is not a use of self.f
+    i0 = H.peel(init, tries=True)
+    empty_ctor = i0.get("k") in ("call", "mcall") and H.callee_name(i0) in ("new", "with_capacity", "default")
+    out = PV.P(ctors=p.ctors) if empty_ctor else p
     for n in fills:
         for a in n["args"]:
             out = out.union(PV.prov(a, ctx))
@@ -380,8 +400,8 @@ def _arm_value(n):
     each say `Ok(..)` / `return Ok(..)`)."""
     n = H.peel(n, refs=False)
     while True:
-        if n.get("k") == "block" and not n["stmts"] and "tail" in n:
-            n = H.peel(n["tail"], refs=False)
+        if n.get("k") == "block" and "tail" in n:
+            n = H.peel(n["tail"], refs=False)       # `{ let x = ..; Variant(x) }`: provenance follows the lets
         elif n.get("k") == "ret" and "e" in n:
             n = H.peel(n["e"], refs=False)
         elif n.get("k") == "call" and H.ctor_of(n) and H.ctor_of(n)[1] == "Ok" and len(n["args"]) == 1:
@@ -433,8 +453,9 @@ def r07_2(F, R, box):
             self_id = H.param_ids(b)[0]
             calls = [n for n in H.walk(b["body"]) if n.get("k") == "mcall" and n["name"] == "remap_with_class_name"]
             for c in calls:
-                root, path = H.place_root(c["args"][-1])
-                ok = root is not None and root[0] == self_id and [p for p in path if not p.startswith(".")] == ["name"]
+                # through any local alias (`let old_name = &self.name;`)
+                pr = PV.prov(c["args"][-1], PV.Ctx(b["body"], roots={self_id: "self"}))
+                ok = pr.src == {(self_id, "self", ("name",))} and not {x for x in pr.calls if x not in PV.IDENTITY_CALLS and not x.startswith(".")}
                 fld = (H.place_root(c["recv"])[1] or ["?"])[-1]
                 R.inst("R07.3", "owner-name:ClassFile.%s" % fld, ok, sp=c["sp"], expect="&self.name (the un-remapped name keys the member tables)", got=H.render(c["args"][-1]))
     for nm in ("Field", "Method"):
@@ -452,31 +473,45 @@ def r07_2(F, R, box):
                     r2, p2 = H.place_root(a[2])
                     ok = bool(l0) and l0[0] == pids[2] and r1 and r1[0] == pids[0] and p1[-1:] == ["name"] and r2 and r2[0] == pids[0] and p2[-1:] == ["descriptor"]
                 R.inst("R07.3", "member-query:%s" % nm, ok, sp=b["sp"], expect="remapper.map_%s(this_class, &self.name, &self.descriptor)" % nm.lower(), got=got)
-    # entry names
+    # entry names: every way remap_jar_entry_name_java completes, classified by the `.class` suffix test (if-let / let-else / match alike)
     fn = box.fn("remap_jar_entry_name_java")
     if R.anchor("R07.2", "fn remap_jar_entry_name_java", fn):
         strips = [n for n in H.walk(fn["body"]) if n.get("k") == "mcall" and n["name"] == "strip_suffix" and H.const_value(n["args"][0]) == ".class"]
         ok1 = len(strips) == 1
         R.inst("R07.2", "class-suffix-test", ok1, sp=fn["sp"])
-        maps = [n for n in H.walk(fn["body"]) if n.get("k") == "mcall" and n["name"] == "map_class"]
-        ok2 = False
-        if ok1 and len(maps) == 1:
-            # the `if let Some(x) = name.strip_suffix(".class")` then-branch holds map_class(x) and re-attaches ".class"
-            for n in H.walk(fn["body"]):
-                if n.get("k") == "if" and H.peel(n["cond"], refs=False).get("k") == "letexpr" and any(x is strips[0] for x in H.walk(n["cond"])):
-                    in_then = any(x is maps[0] for x in H.walk(n["then"]))
-                    fa = _format_pieces(box, n["then"])
-                    suffix_back = any(p and p[-1] == ".class" and sum(1 for q in p if isinstance(q, dict)) == 1 for p in fa)
-                    els = n.get("else")
-                    unchanged = False
-                    if els is not None:
-                        t = _tail(els)
-                        if t.get("k") == "call" and H.ctor_of(t) and H.ctor_of(t)[1] == "Ok":
-                            pr = H.recv_root(t["args"][0])
-                            unchanged = bool(pr) and pr[0] == H.param_ids(fn)[0]
-                    ok2 = in_then and suffix_back
-                    R.inst("R07.2", "non-class-name-unchanged", unchanged, sp=(els or n)["sp"], detail="names without `.class` are returned as they are")
-        R.inst("R07.2", "class-name-through-map_class", ok2, sp=fn["sp"], detail="strip `.class`, map_class, format `{name}.class`")
+        sym = S.Sym([box])
+        exits = sym.fn_exits(fn)
+        suffix = S.atom("ends", "p0", ".class")
+        stripped = "p0.strip_suffix('.class')"
+        n_class = n_other = 0
+        ok_class = ok_other = True
+        for pc, v in exits:
+            if v[0] != "b" or S.equivalent(S.f_and(pc, v[1]), S.FALSE)[0]:
+                continue            # an error exit
+            if S.implies(pc, suffix)[0]:
+                n_class += 1
+                ok_class = ok_class and any(a[0] == "?" and "map_class(" in a[1] and stripped in a[1] and S.implies(pc, ("atom", a))[0] for a in S.atoms_of(pc))
+            elif S.implies(pc, S.f_not(suffix))[0]:
+                n_other += 1
+                ok_other = ok_other and v[2] == ("s", "p0")
+            else:
+                ok_class = ok_other = False
+        R.inst("R07.2", "non-class-name-unchanged", ok_other and n_other >= 1, sp=fn["sp"], detail="names without `.class` are returned as they are",
+               got=["%s -> %s" % (S.show(pc), sym.show_val(v)) for pc, v in exits][:6])
+        # the successful class exit formats `<mapped name>.class`
+        lets = {}
+        for n in H.walk(fn["body"]):
+            if n.get("k") == "let" and "init" in n and n["pat"].get("k") == "bind":
+                lets.setdefault(n["pat"]["name"], []).append(n["init"])
+        suffix_back = 0
+        for fa in H.format_args_in(box, fn):
+            ps = fa.get("pieces") or []
+            if ps and ps[-1] == ".class" and sum(1 for q in ps if isinstance(q, dict)) == 1 and all(q == "" for q in ps[:-1] if isinstance(q, str)):
+                src = ((fa.get("args") or [{}])[0].get("src") or "").strip()
+                from_map = "map_class" in src or any(any(x.get("k") == "mcall" and x["name"] == "map_class" for x in H.walk(i_)) for i_ in lets.get(src, []))
+                suffix_back += 1 if from_map else 0
+        R.inst("R07.2", "class-name-through-map_class", ok1 and ok_class and n_class >= 1 and suffix_back == 1, sp=fn["sp"],
+               detail="strip `.class`, map_class, format `{name}.class`", got={"class exits": n_class, "through map_class": ok_class, "`{mapped}.class` templates": suffix_back})
     rm = box.fn("remap", within="dukebox::remap::remap")
     rm = rm or next((b for b in box.bodies if b["path"] == "dukebox::remap::remap"), None)
     if R.anchor("R07.2", "fn dukebox::remap::remap", rm):
